@@ -29,6 +29,11 @@ fn boundary_chain() -> Vec<BlockSpec> {
     let mut t = TxSpec::new(vec![TxIn::new(idn(), 0, vec![])], vec![TxOut::new(7, vec![0x6a, 0x02, 0x68, 0x69])]);
     t.witness = Some(vec![(0..300).map(|i| vec![i as u8; (i % 5) as usize]).collect()]);
     txs.push(t);
+    // witness items whose length needs the 3- and 5-byte CompactSize forms (65535, 65536, 70000 bytes), followed by a legacy tx
+    let mut t = TxSpec::new(vec![TxIn::new(idn(), 0, vec![]), TxIn::new(idn(), 1, vec![])], vec![TxOut::new(11, p2pkh_script(&[3; 20]))]);
+    t.witness = Some(vec![vec![vec![0x5a; 65_535], vec![0x5b; 65_536]], vec![vec![0x5c; 70_000]]]);
+    t.locktime = 0x0bad_cafe;
+    txs.push(t);
     txs.push(TxSpec::new(vec![TxIn::new(idn(), 0, vec![0x51])], vec![TxOut::new(8, vec![0x51])]));
     // the same payee paid several times by one transaction: adjacent and non-adjacent outputs (and inputs) with identical
     // scripts and different values -- every row keeps its own value, index and script
